@@ -40,6 +40,18 @@ Definition with_fs {A} (F : fs) (f : A -> tree) (o : outcome (fs * A)) : tree * 
 
 Definition sorted_strs (l : list string) : tree := of_strs (sort_s l).
 
+(* create(get_new("version")) repeated k times, stopping at the empty Sid *)
+Fixpoint publish_chain (Ld : Loaded) (Rt : Routing) (F : fs) (cfg : string) (x : sid) (k : nat) (acc : list string)
+  : outcome (fs * list string) :=
+  match k with
+  | O => Ok (F, acc)
+  | S k' =>
+      do n <- get_new Ld Rt F x "version";
+      if negb (sid_bool n) then Ok (F, (acc ++ [s_string n])%list) else
+      do r <- w_create Ld Rt F cfg (uri n) [];
+      publish_chain Ld Rt (fst r) cfg x k' (acc ++ [s_string n])%list
+  end.
+
 Definition run_fs (st : option Loaded) (rt : option Routing) (F : fs) (op : string) (args : list tree) : tree * fs :=
   match st, rt with
   | Some Ld, Some Rt =>
@@ -106,6 +118,16 @@ Definition run_fs (st : option Loaded) (rt : option Routing) (F : fs) (op : stri
         match t_strs attrs with
         | Some a => on_sid s (fun x => t_out t_record (get_data_paths Ld F cfg x a (parse_enc enc)))
         | None => pure bad end
+    | "get_data_paths_new", [L cfg; s; attrs; L enc] =>
+        match t_strs attrs with
+        | Some a => on_sid s (fun x => t_out t_record (get_data_paths Ld F cfg x a (parse_enc enc)))
+        | None => pure bad end
+    | "w_set", [L cfg; L s; L k; L v] => with_fs F t_bool (w_update Ld F cfg s [(k, v)])
+    | "publish_chain", [L cfg; L s; L k] =>
+        match Sid Ld s with
+        | Ok x => with_fs F of_strs (publish_chain Ld Rt F cfg x (str_to_nat k) [])
+        | Raise e => pure (N [L "raise"; L (exn_name e)])
+        end
     | "get_paths", [L cfg; L q; attrs; L enc] =>
         match t_strs attrs with
         | Some a => pure (t_out (fun l => N (map t_record l)) (get_paths Ld F cfg q a (parse_enc enc)))
